@@ -97,7 +97,9 @@ def c17b(ctx, tu):
         if void:
             continue
         rets = [e.get("x") for b, e in fn.events() if e["e"] == "return"]
-        ok = len(rets) == 1 and lib.tree_name(lib.strip_casts(rets[0])) == AG + "::trace_return" and "'param', 0" in str(rets[0][3])
+        trs = [c for c in lib.tree_calls(rets[0])] if len(rets) == 1 else []
+        trs = [c for c in trs if lib.tree_name(c) == AG + "::trace_return"]
+        ok = len(trs) == 1 and "'param', 0" in str(trs[0][3])
         ctx.ob("C17.b.ret", "trompeloeil::trace_return", ok, pattern=fn.pat, unit=tu.name, inst=fn.q,
                detail="" if ok else "a non-void result must be recorded by (and returned through) the agent")
 
